@@ -29,7 +29,8 @@ type roundCfg struct {
 	depth            int
 	c05              bool  // evaluate the dead-node / prune oracles instead of the save oracles
 	skipEmptyRecords bool  // the caller records dead nodes only in rounds where something died
-	base             int64 // the first round's version is base+1 (round numbers are written as store keys: byte-order boundaries)
+	initial          []string // paths (value "i") inserted, merged and saved as a round of their own before the exploration starts
+	base             int64    // the first round's version is base+1 (round numbers are written as store keys: byte-order boundaries)
 	syncOps          bool  // a round may end with the authoritative state of the round being merged in (MergeDB)
 }
 
@@ -112,6 +113,19 @@ func newRWorld(c roundCfg) *rWorld {
 	}
 	w.pn = pn
 	w.startRound()
+	if len(c.initial) > 0 {
+		for _, p := range c.initial {
+			if f := w.apply(rEvent{K: 'I', P: p, V: "i"}, false); f != "" {
+				panic("initial content: " + f)
+			}
+		}
+		if f := w.apply(rEvent{K: 'm'}, false); f != "" {
+			panic("initial content: " + f)
+		}
+		if f := w.apply(rEvent{K: 'S'}, false); f != "" {
+			panic("initial content: " + f)
+		}
+	}
 	return w
 }
 
@@ -649,6 +663,8 @@ func aggAdd(a, s *crashStats) {
 
 var nestedRound = []string{"", "aa", "ab", "aaaa", "aaab"}
 
+var prefixOverExt = []string{"aa", "aaabaa", "aaabab", "ab"}
+
 func C04(tier rt.Tier) int {
 	rep := rt.NewReport("C04", tier)
 	agg := &crashStats{}
@@ -663,6 +679,7 @@ func C04(tier rt.Tier) int {
 			// a round's local computation is superseded by the authoritative state of the round (MergeDB)
 			{name: "sync-merge-2rounds", paths: pfPaths[:3], vals: []string{"x"}, rounds: 2, txnOps: 2, maxTxns: 1, depth: 8, syncOps: true},
 			{name: "rounds-255..257", paths: pfPaths[:2], vals: []string{"x", "y"}, rounds: 3, txnOps: 1, maxTxns: 1, depth: 9, base: 254},
+			{name: "prefix-key-over-extension", initial: prefixOverExt, paths: prefixOverExt, vals: []string{"x"}, rounds: 2, txnOps: 2, maxTxns: 1, depth: 7},
 		}
 	} else {
 		per = 8 * time.Minute
@@ -716,6 +733,9 @@ func C05(tier rt.Tier) int {
 			{name: "sync-merge-2rounds", paths: pfPaths[:3], vals: []string{"x"}, rounds: 2, txnOps: 2, maxTxns: 1, depth: 8, c05: true, syncOps: true},
 			// round numbers are keys of the dead-node records: byte-order boundaries of the key encoding
 			{name: "rounds-255..257", paths: pfPaths[:2], vals: []string{"x", "y"}, rounds: 3, txnOps: 1, maxTxns: 1, depth: 9, c05: true, base: 254},
+			// a key that is a prefix of others, whose branch has ONE child that is an extension (two shared characters
+			// below the prefix), next to a sibling: deleting the prefix key lifts the extension
+			{name: "prefix-key-over-extension", initial: prefixOverExt, paths: prefixOverExt, vals: []string{"x"}, rounds: 2, txnOps: 2, maxTxns: 1, depth: 7, c05: true},
 			{name: "rounds-65535..65537", paths: pfPaths[:2], vals: []string{"x", "y"}, rounds: 3, txnOps: 1, maxTxns: 1, depth: 9, c05: true, base: 65534},
 		}
 	} else {
@@ -724,6 +744,7 @@ func C05(tier rt.Tier) int {
 			{name: "nested-3rounds", paths: nestedRound, vals: []string{"x", "y"}, rounds: 3, txnOps: 2, maxTxns: 3, depth: 12, c05: true},
 			{name: "sync-merge-3rounds", paths: nestedRound[:4], vals: []string{"x"}, rounds: 3, txnOps: 2, maxTxns: 1, depth: 12, c05: true, syncOps: true},
 			{name: "rounds-254..257", paths: pfPaths[:3], vals: []string{"x"}, rounds: 4, txnOps: 1, maxTxns: 2, depth: 14, c05: true, base: 253},
+			{name: "prefix-key-over-extension", initial: prefixOverExt, paths: prefixOverExt, vals: []string{"x"}, rounds: 3, txnOps: 2, maxTxns: 2, depth: 12, c05: true},
 			{name: "rounds-65535..65537", paths: pfPaths[:3], vals: []string{"x"}, rounds: 3, txnOps: 1, maxTxns: 2, depth: 11, c05: true, base: 65534},
 			{name: "rounds-2^32-1..2^32+1", paths: pfPaths[:3], vals: []string{"x"}, rounds: 3, txnOps: 1, maxTxns: 2, depth: 11, c05: true, base: 1<<32 - 2},
 			{name: "rounds-2^56-1..2^56+1", paths: pfPaths[:2], vals: []string{"x"}, rounds: 3, txnOps: 1, maxTxns: 2, depth: 11, c05: true, base: 1<<56 - 2},
